@@ -102,7 +102,7 @@ func opFsrun(a []string) string {
 	switch a[6] {
 	case peer.FaultNone:
 		f.K = -1
-	case peer.FaultClose, peer.FaultGarbage, peer.FaultTrunc, peer.FaultOther, peer.FaultCloseUL, peer.FaultSilent, peer.FaultBigGarbage, peer.FaultCount:
+	case peer.FaultClose, peer.FaultGarbage, peer.FaultTrunc, peer.FaultOther, peer.FaultCloseUL, peer.FaultSilent, peer.FaultBigGarbage, peer.FaultCount, peer.FaultShrink:
 		if k < 0 {
 			panic(badArg{})
 		}
@@ -199,6 +199,7 @@ func failstopDomain(e *emitter) {
 			reads, _ := fsShape([5]int{1, 1, 1, 1, 1})
 			for k := 0; k < reads; k++ {
 				add(1, [5]int{1, 1, 1, 1, 1}, peer.FaultCount, k, e.seed)
+				add(1, [5]int{1, 1, 1, 1, 1}, peer.FaultShrink, k, e.seed)
 			}
 		}
 		// counts that differ from each other (clamps), a configuration from another seed, the shipped configuration
